@@ -24,7 +24,7 @@ def check(pid, category, text, note, technique, design, thorough=True, engine="s
 check(
     "C20",
     "other",
-    "bounded symbolic verification of the constant-folding kernels: for every operator x operand-kind combination the real folding functions are executed on symbolic operands (z3 Int / Float64 / symbolic-length strings); obligations: no exception can escape for any operand value (totality) and every big-int/sequence operation grows its result by at most 2**24 bits/items over its largest operand (so cost is linear in the text). (K2) the two deferral loops of semantic analysis (semanal_main.process_top_level_function / process_top_levels) run from source against an oracle for semantic_analyze_target whose answers are solver-chosen at every call under the analyzer's no-deferral-in-final-iteration contract: they return within MAX_ITERATIONS rounds, never trip their assertions, report a hang only when the cap stopped them. (K3) the daemon's import-following update (Server.fine_grained_increment_follow_imports / find_reachable_changed_modules / direct_imports) on solver-chosen import graphs with cycles, root sets and changed files terminates and processes every reachable changed module exactly once. (K4) ExpressionChecker.dangerous_comparison returns (no RecursionError) for every ordered pair of recursive alias types over set/frozenset/list/tuple/dict/Mapping/unions, built by the real front end. Narrow: folding kernels, deferral loops, the daemon work-list and the strict-equality recursion only - the scalar part of 'never an internal failure or hang'.",
+    "bounded symbolic verification of the constant-folding kernels: for every operator x operand-kind combination the real folding functions are executed on symbolic operands (z3 Int / Float64 / symbolic-length strings); obligations: no exception can escape for any operand value (totality) and every big-int/sequence operation grows its result by at most 2**24 bits/items over its largest operand (so cost is linear in the text). (K2) the two deferral loops of semantic analysis (semanal_main.process_top_level_function / process_top_levels) run from source against an oracle for semantic_analyze_target whose answers are solver-chosen at every call under the analyzer's no-deferral-in-final-iteration contract: they return within MAX_ITERATIONS rounds, never trip their assertions, report a hang only when the cap stopped them. (K3) the daemon's import-following update (Server.fine_grained_increment_follow_imports / find_reachable_changed_modules / direct_imports) on solver-chosen import graphs with cycles, root sets and changed files terminates and processes every reachable changed module exactly once. (K4b) nine type visitors and six type relations return on every recursive alias (pair); (K5) treetransform.TransformVisitor copies 16 construct snippets without exception and print-identically; (K4) ExpressionChecker.dangerous_comparison returns (no RecursionError) for every ordered pair of recursive alias types over set/frozenset/list/tuple/dict/Mapping/unions, built by the real front end. Narrow: folding kernels, deferral loops, the daemon work-list and the strict-equality recursion only - the scalar part of 'never an internal failure or hang'.",
     "trusted: z3, the pysem raise-condition table in vf/symx.py (validated against CPython on boundary values at start-up), bit_length/pow as axiomatised uninterpreted functions; outside the claim: crashes from program structure, daemon mode",
     "symbolic execution of real Python source with z3 (decision-replay), exhaustive path exploration per operator/kind",
     "DESIGN.md 4/C20",
@@ -153,7 +153,7 @@ check(
 check(
     "C10",
     "other",
-    "bounded symbolic verification that the ordering kernels do not depend on set iteration order: graph_utils.strongly_connected_components/prepare_sccs/topsort and build.sorted_components_inner/order_ascc/deps_filtered/transitive_dep_hash are executed from a source rewrite in which every set/frozenset (constructor calls, displays, comprehensions) iterates in an order given by solver-chosen ranks (a hash-seed model); graphs over 3 modules (every edge absent/direct/indirect) and State.order permutations are solver-chosen too; the SCC sequence, the order inside SCCs and the token stream fed to the transitive-dependency hash must equal the canonical ones; the real find_stale_sccs/order_ascc_ex on the fully fresh graph with solver-chosen 'module has cached diagnostics' flags must flush cached diagnostics in the canonical order. (H1) two builds in one process with solver-chosen typeshed tables and target versions: after the per-build resets of build.build the known-modules memo gives the second build what a fresh process gets. Narrow: whole-run hash-seed independence and independence from earlier builds in the same process are not encodable and not claimed.",
+    "bounded symbolic verification that the ordering kernels do not depend on set iteration order: graph_utils.strongly_connected_components/prepare_sccs/topsort and build.sorted_components_inner/order_ascc/deps_filtered/transitive_dep_hash are executed from a source rewrite in which every set/frozenset (constructor calls, displays, comprehensions) iterates in an order given by solver-chosen ranks (a hash-seed model); graphs over 3 modules (every edge absent/direct/indirect) and State.order permutations are solver-chosen too; the SCC sequence, the order inside SCCs and the token stream fed to the transitive-dependency hash must equal the canonical ones; the real find_stale_sccs/order_ascc_ex on the fully fresh graph with solver-chosen 'module has cached diagnostics' flags must flush cached diagnostics in the canonical order. (H1) two builds in one process with solver-chosen typeshed tables and target versions: after the per-build resets of build.build the known-modules memo gives the second build what a fresh process gets. (S1) messages.best_matches with solver-ranked candidate sets returns the canonical suggestion list. (H2) constraints.infer_constraints on real protocol / NamedTuple / tuple types leaves the shared recursion-guard stacks as it found them. Narrow: whole-run hash-seed independence and independence from earlier builds in the same process are not encodable and not claimed.",
     "trusted: z3; set iteration modelled as a per-run total order on elements; typed token buffer instead of WriteBuffer for the hash input",
     "symbolic execution of a source rewrite of the real code with solver-chosen set iteration orders; replay under 48 PYTHONHASHSEEDs",
     "DESIGN.md 4/C10",
@@ -162,7 +162,7 @@ check(
 check(
     "C06",
     "other",
-    "ownership bounded model checking of the final mypyc IR: for every function of the mypyc test-data programs that build with the IR fixture (quick: 13 files, ~1100 functions; thorough: all irbuild/run/lowering/opt files) and of a generated corpus of ownership-relevant program shapes (displays, one-branch definitions, loops, try/finally, tuples), the FuncIR produced by the real compile_scc_to_ir pipeline is encoded in passive form over its CFG with loops peeled twice (per value: owned-reference count and error flag, ITE-merged; IS_ERROR branches tied to error flags; all other branch outcomes and op error flags free) and z3 discharges, per return and per decrement, that every value is released exactly once on every path incl. every exceptional exit and never over-released. Static half only. (K-glue) the C constructor (tp_new) emitted by the real emitclass.generate_new_for_class, compiled to LLVM IR with Py_DECREF redirected to a recorded external call: the new object is released exactly once on a failing __init__, never when returned; __init__'s result exactly once. In __init__ functions a per-attribute 'may already hold a value' state makes every SetAttr marked as initialiser (no release of the old value) an obligation.",
+    "ownership bounded model checking of the final mypyc IR: for every function of the mypyc test-data programs that build with the IR fixture (quick: 13 files, ~1100 functions; thorough: all irbuild/run/lowering/opt files) and of a generated corpus of ownership-relevant program shapes (displays, one-branch definitions, loops, try/finally, tuples), the FuncIR produced by the real compile_scc_to_ir pipeline is encoded in passive form over its CFG with loops peeled twice (per value: owned-reference count and error flag, ITE-merged; IS_ERROR branches tied to error flags; all other branch outcomes and op error flags free) and z3 discharges, per return and per decrement, that every value is released exactly once on every path incl. every exceptional exit and never over-released. Static half only. (K-glue) the C constructor (tp_new) emitted by the real emitclass.generate_new_for_class, compiled to LLVM IR with Py_DECREF redirected to a recorded external call: the new object is released exactly once on a failing __init__, never when returned; __init__'s result exactly once. The emitted call wrappers of functions with *args/**kwargs release the parser-created tuple/dict exactly once on every path. In __init__ functions a per-attribute 'may already hold a value' state makes every SetAttr marked as initialiser (no release of the old value) an obligation.",
     "trusted: z3; op ownership metadata (stolen/is_borrowed/error_kind/is_xdec) and its faithful emission as C; stated modelling rules (error value transfers nothing, unborrow hands over the aggregate, slot release before set_mem, out-parameter registers, dropped branch targets); loops peeled twice; dynamic leak observation, use-after-release of borrowed values and always-defined attributes outside",
     "bounded model checking of compiler IR with z3 (passive form, all paths and error flags)",
     "DESIGN.md 4/C06",
